@@ -58,6 +58,8 @@ def gen_desc(verif_seed: int, i: int, tier: str = "quick") -> dict:
         cfg["phases"] = sorted(set(cfg["phases"]) | {"stateful"}, key=["probing", "examples", "coverage", "fuzzing", "stateful"].index)
         cfg["step_count"] = rng.choice([2, 3, 4, 6, None])
         cfg["shim"] = True
+    if focus in ("max_failures", "stop", "rate"):
+        fl = fl + gen.gen_stalls(rs, udesc, cfg, p=0.25)
     if entry == "cli":
         cfg["argv"] = cli_argv(cfg, udesc)
         if cfg.get("rate_limit"):
@@ -144,6 +146,14 @@ class C12Profile(Profile):
 
         W._register_sim_marker()
         faults.install_ctrl_c(ctx)
+        faults.install_stalls(ctx)
+        extra = ctx.extra.get("extra_checks")
+        if extra:
+            ctx.config["checks"] = list(ctx.config["checks"]) + extra
+            if ctx.config.get("argv"):
+                argv = ctx.config["argv"]
+                k = argv.index("--checks")
+                argv[k + 1] = argv[k + 1] + "," + ",".join(extra)
         if ctx.desc.get("focus") == "max_failures" and ctx.sched.policy is not None and ctx.desc["run_seed"] % 2 == 0:
             # aim the schedule at the instant a failing scenario is published: the publisher loses the baton, the other
             # workers and the consumer keep it (limit accounting must not depend on who runs next)
